@@ -1,6 +1,6 @@
 (* C02 — a transition succeeds iff every critical task acknowledged it.
    Property theorems only; each closed by [exact] of a lemma from proofs/TaskCmd_proofs.v
-   (refutations: by a computed witness).  The model is coq/model/TaskCmd.v; outcomes of tasks are
+   (the one remaining refutation: by a computed witness).  The model is coq/model/TaskCmd.v; outcomes of tasks are
    oracle arguments ([oc], [ls]); nothing is bounded: task lists, outcome lists and histories are
    arbitrary. *)
 From Verif Require Import Common RoleTree TaskCmd TaskCmd_proofs.
@@ -9,31 +9,12 @@ Open Scope N_scope.
 
 (* ---- the command decision (configureTasks / transitionTasks) ---- *)
 
-(* Full statement: the command goes through iff every critical commanded task acknowledged. *)
-Definition C02_cmd_iff_statement : Prop :=
-  forall ts oc, res_ok (cmd_result ts oc) = true <-> crit_acked ts oc.
-
-(* It holds exactly for the task lists in which a critical task is commanded or at least two
-   tasks are commanded ... *)
-Theorem C02_cmd_iff_partial : forall ts oc,
-  has_crit_target ts = true \/ (2 <= length (targets ts))%nat ->
-  (res_ok (cmd_result ts oc) = true <-> crit_acked ts oc).
-Proof. exact cmd_iff_partial. Qed.
-Print Assumptions C02_cmd_iff_partial.
-
-(* ... and for no other: the hypothesis is necessary. *)
-Theorem C02_cmd_iff_partial_exact : forall ts,
-  (forall oc, res_ok (cmd_result ts oc) = true <-> crit_acked ts oc) ->
-  has_crit_target ts = true \/ (2 <= length (targets ts))%nat.
-Proof. exact cmd_shape_exact. Qed.
-Print Assumptions C02_cmd_iff_partial_exact.
-
-Theorem C02_cmd_iff_refuted : ~ C02_cmd_iff_statement.
-Proof.
-  intro H. specialize (H [] []). cbn in H.
-  assert (X : false = true); [|discriminate]. apply H. intros i t [].
-Qed.
-Print Assumptions C02_cmd_iff_refuted.
+(* Full statement: the command goes through iff every critical commanded task acknowledged — for
+   every task list: no target (succeeds at once), one target (classified by its critical trait,
+   repair C02-b), several. *)
+Theorem C02_cmd_iff : forall ts oc, res_ok (cmd_result ts oc) = true <-> crit_acked ts oc.
+Proof. exact cmd_iff. Qed.
+Print Assumptions C02_cmd_iff.
 
 (* A critical commanded task that does not acknowledge (error reply in either state, send
    failure, silence, death) fails the command — for every task list and every behaviour of the
@@ -44,13 +25,12 @@ Theorem C02_cmd_critical_failure_fails : forall ts oc i t,
 Proof. exact cmd_critical_failure_fails. Qed.
 Print Assumptions C02_cmd_critical_failure_fails.
 
-(* Failures confined to non-critical tasks never change the decision — with two targets or more. *)
-Theorem C02_noncritical_inert_partial : forall ts oc oc',
-  (2 <= length (targets ts))%nat ->
+(* Failures confined to non-critical tasks never change the decision. *)
+Theorem C02_noncritical_inert : forall ts oc oc',
   (forall i t, In (i, t) (targets ts) -> r_crit t = true -> oc_at oc i = oc_at oc' i) ->
   res_ok (cmd_result ts oc) = res_ok (cmd_result ts oc').
 Proof. exact cmd_noncritical_inert. Qed.
-Print Assumptions C02_noncritical_inert_partial.
+Print Assumptions C02_noncritical_inert.
 
 (* Only tasks whose role is ACTIVE are commanded; control mode and host play no part. *)
 Theorem C02_targets_are_active_tasks : forall ts i t,
@@ -65,72 +45,57 @@ Print Assumptions C02_mode_and_host_irrelevant.
 
 (* ---- a request through the API (START_ACTIVITY, STOP_ACTIVITY, RESET, CONFIGURE) ---- *)
 
-Definition C02_request_iff_statement : Prop :=
-  forall e oc s, s_env s = ev_src e ->
-    (reached e (snd (api_control e oc s)) <-> crit_acked (s_ts s) oc).
-
-Theorem C02_request_iff_partial : forall e oc s,
-  s_env s = ev_src e ->
-  has_crit_target (s_ts s) = true \/ (2 <= length (targets (s_ts s)))%nat ->
+(* Full statement: a request made in the state that allows it returns the destination state
+   without an error iff every critical commanded task acknowledged. *)
+Theorem C02_request_iff : forall e oc s, s_env s = ev_src e ->
   (reached e (snd (api_control e oc s)) <-> crit_acked (s_ts s) oc).
-Proof. exact api_iff_partial. Qed.
-Print Assumptions C02_request_iff_partial.
+Proof. exact api_iff. Qed.
+Print Assumptions C02_request_iff.
 
-(* "a transition with nothing to command succeeds at once": never, in the code as it is —
-   START/STOP/RESET fail on the nil response, CONFIGURE does not return. *)
-Definition C02_nothing_to_command_statement : Prop :=
-  forall e oc s, s_env s = ev_src e -> targets (s_ts s) = [] -> reached e (snd (api_control e oc s)).
-
-Theorem C02_zero_tasks_refuted : forall e oc s,
-  s_env s = ev_src e -> targets (s_ts s) = [] -> ~ reached e (snd (api_control e oc s)).
+(* "a transition with nothing to command succeeds at once" (repairs C02-a, C02-a2): the
+   destination is reached and no task is commanded. *)
+Theorem C02_nothing_to_command : forall e oc s,
+  s_env s = ev_src e -> targets (s_ts s) = [] ->
+  reached e (snd (api_control e oc s)) /\ o_cmded (snd (api_control e oc s)) = [].
 Proof. exact api_nothing_to_command. Qed.
-Print Assumptions C02_zero_tasks_refuted.
+Print Assumptions C02_nothing_to_command.
 
-Theorem C02_configure_nothing_hangs : forall oc s,
-  s_env s = E_DEPLOYED -> targets (s_ts s) = [] -> o_hang (snd (api_control CONFIGURE oc s)) = true.
-Proof. exact api_configure_nothing_hangs. Qed.
-Print Assumptions C02_configure_nothing_hangs.
+(* every request returns, whatever the state it is made in *)
+Theorem C02_request_returns : forall e oc s, o_hang (snd (api_control e oc s)) = false.
+Proof. exact api_never_hangs. Qed.
+Print Assumptions C02_request_returns.
 
-(* "failures confined to non-critical tasks never make a transition fail": refuted by one
-   non-critical task that answers START with an error. *)
-Definition C02_noncritical_never_fails_statement : Prop :=
-  forall e oc s, s_env s = ev_src e -> targets (s_ts s) <> [] -> crit_acked (s_ts s) oc ->
-    reached e (snd (api_control e oc s)).
+(* "failures confined to non-critical tasks never make a transition fail" (repair C02-b: also
+   when a single task is commanded). *)
+Theorem C02_noncritical_never_fails : forall e oc s,
+  s_env s = ev_src e -> crit_acked (s_ts s) oc -> reached e (snd (api_control e oc s)).
+Proof. exact api_noncritical_never_fails. Qed.
+Print Assumptions C02_noncritical_never_fails.
 
-Theorem C02_single_noncritical_refuted : ~ C02_noncritical_never_fails_statement.
-Proof.
-  intro H.
-  specialize (H START [ErrSrc] (mkSys E_CONFIGURED [mkR (mkT false Direct 1) ACTIVE CONFIGURED] 0) eq_refl).
-  assert (Hr : reached START (snd (api_control START [ErrSrc]
-             (mkSys E_CONFIGURED [mkR (mkT false Direct 1) ACTIVE CONFIGURED] 0)))).
-  { apply H; [discriminate|]. intros i t [E|[]] Hc. inversion E; subst. discriminate. }
-  destruct Hr as [Hst _]. vm_compute in Hst. discriminate.
-Qed.
-Print Assumptions C02_single_noncritical_refuted.
-
-(* A critical failure: the environment ends in ERROR, the destination state is never published,
-   the request returns. Unconditional. *)
+(* A critical failure: the request returns an error, the environment ends in ERROR, the
+   destination state is never published. Unconditional. *)
 Theorem C02_critical_failure_ends_in_error : forall e oc s i t,
   s_env s = ev_src e -> In (i, t) (targets (s_ts s)) -> r_crit t = true -> oc_at oc i <> Ack ->
   let (s', ob) := api_control e oc s in
   s_env s' = E_ERROR /\ o_state ob = 5 /\ o_hang ob = false /\
-  ~ In (N_of_estate (ev_dst e)) (o_reported ob) /\ o_err ob = false.
+  ~ In (N_of_estate (ev_dst e)) (o_reported ob) /\ o_err ob = true.
 Proof. exact api_critical_failure. Qed.
 Print Assumptions C02_critical_failure_ends_in_error.
 
-(* "the request returns an error": refuted — ControlEnvironment answers every failed command
-   transition with state ERROR and *no* error (the error variable is overwritten by the result
-   of the GO_ERROR transition). *)
-Definition C02_failure_returns_error_statement : Prop :=
-  forall e oc s, s_env s = ev_src e -> is_configure e && no_targets (s_ts s) = false ->
-    res_ok (cmd_result (s_ts s) oc) = false -> o_err (snd (api_control e oc s)) = true.
+(* "the request returns an error" (repair C02-d): every failed command transition is answered
+   with an error and the state ERROR ... *)
+Theorem C02_failure_returns_error : forall e oc s,
+  s_env s = ev_src e -> res_ok (cmd_result (s_ts s) oc) = false ->
+  o_err (snd (api_control e oc s)) = true /\ o_state (snd (api_control e oc s)) = 5.
+Proof. exact api_failure_returned. Qed.
+Print Assumptions C02_failure_returns_error.
 
-Theorem C02_failure_returns_error_refuted : forall e oc s,
-  s_env s = ev_src e -> is_configure e && no_targets (s_ts s) = false ->
-  res_ok (cmd_result (s_ts s) oc) = false ->
-  o_err (snd (api_control e oc s)) = false /\ o_state (snd (api_control e oc s)) = 5.
-Proof. exact api_failure_not_returned. Qed.
-Print Assumptions C02_failure_returns_error_refuted.
+(* ... and, in whatever state the request is made, a reply without an error carries the
+   destination state: there is no OK reply with state ERROR. *)
+Theorem C02_ok_reply_is_destination : forall e oc s,
+  o_err (snd (api_control e oc s)) = false -> o_state (snd (api_control e oc s)) = N_of_estate (ev_dst e).
+Proof. exact api_ok_reply_is_dst. Qed.
+Print Assumptions C02_ok_reply_is_destination.
 
 (* ---- creation: DEPLOY and CONFIGURE through CreateEnvironment ---- *)
 
@@ -141,6 +106,16 @@ Theorem C02_deploy_ok_iff : forall ds nc ls,
 Proof. exact deploy_ok_iff. Qed.
 Print Assumptions C02_deploy_ok_iff.
 
+(* creation, exactly (every workflow, launch script, CONFIGURE script): the workflow has a role,
+   every task launched, every critical task acknowledged CONFIGURE *)
+Theorem C02_create_exact : forall ds nc ls oc,
+  created ds nc ls oc = true <->
+  (ds <> [] \/ nc <> 0) /\ all_launch_ok ds ls = true /\ crit_cfg_ok_from 0 ds oc = true.
+Proof. exact create_exact. Qed.
+Print Assumptions C02_create_exact.
+
+(* The property's statement for creation: it still fails in DEPLOY (findings C02-c, C02-a3,
+   design-level, recorded); the CONFIGURE part is repaired. *)
 Definition C02_create_iff_statement : Prop :=
   forall ds nc ls oc,
     created ds nc ls oc = true <-> crit_launch_ok ds ls = true /\ crit_cfg_ok_from 0 ds oc = true.
@@ -151,12 +126,21 @@ Theorem C02_created_only_if_critical_ok : forall ds nc ls oc,
 Proof. exact created_sound. Qed.
 Print Assumptions C02_created_only_if_critical_ok.
 
+(* iff holds exactly when the workflow has a role and every non-critical task launched too ... *)
 Theorem C02_create_iff_partial : forall ds nc ls oc,
   noncrit_launch_ok ds ls = true ->
-  existsb t_crit ds = true \/ (2 <= length ds)%nat ->
+  ds <> [] \/ nc <> 0 ->
   (created ds nc ls oc = true <-> crit_launch_ok ds ls = true /\ crit_cfg_ok_from 0 ds oc = true).
 Proof. exact create_iff_partial. Qed.
 Print Assumptions C02_create_iff_partial.
+
+(* ... and both hypotheses are necessary *)
+Theorem C02_create_iff_partial_exact : forall ds nc ls oc,
+  (noncrit_launch_ok ds ls = false \/ (ds = [] /\ nc = 0)) -> created ds nc ls oc = false.
+Proof.
+  intros ds nc ls oc [H|[-> ->]]; [exact (create_needs_noncrit ds nc ls oc H)|exact (create_needs_role ls oc)].
+Qed.
+Print Assumptions C02_create_iff_partial_exact.
 
 (* a non-critical task that fails to launch makes DEPLOY fail although every critical task is up *)
 Theorem C02_deploy_noncritical_refuted : ~ C02_create_iff_statement.
@@ -167,12 +151,12 @@ Proof.
 Qed.
 Print Assumptions C02_deploy_noncritical_refuted.
 
-(* a failed creation returns an error, publishes ERROR, never CONFIGURED, and never DEPLOYED
+(* a failed creation returns, with an error, publishes ERROR, never CONFIGURED, and never DEPLOYED
    when it was DEPLOY that failed *)
 Theorem C02_failed_creation : forall ds nc ls oc,
-  fst (create ds nc ls oc) = None -> o_hang (snd (create ds nc ls oc)) = false ->
+  fst (create ds nc ls oc) = None ->
   let ob := snd (create ds nc ls oc) in
-  o_err ob = true /\ In 5 (o_reported ob) /\ ~ In 3 (o_reported ob) /\
+  o_err ob = true /\ o_hang ob = false /\ In 5 (o_reported ob) /\ ~ In 3 (o_reported ob) /\
   (deploy_ok (launch_all ds ls) nc = false -> ~ In 2 (o_reported ob)).
 Proof. exact create_failed_obs. Qed.
 Print Assumptions C02_failed_creation.
@@ -194,26 +178,33 @@ Print Assumptions C02_failure_is_final.
 
 (* Bridge: on every history of the model (every workflow, launch script, outcome script, request
    sequence) the monitor — the property as evaluated on the implementation — reports nothing
-   but the recorded classes 3..8.  Any other class seen on the implementation therefore means
-   the implementation left the model. *)
-Theorem C02_monitor_on_model : forall i, In (mon02 (mkCase i (run_model i))) [0; 3; 4; 5; 6; 7; 8].
+   but the recorded DEPLOY classes 6 and 7.  Any other class seen on the implementation (among
+   them 3, 4, 5, 8: the repaired defects) therefore means the implementation left the model. *)
+Theorem C02_monitor_on_model : forall i, In (mon02 (mkCase i (run_model i))) [0; 6; 7].
 Proof. exact mon_model_allowed. Qed.
 Print Assumptions C02_monitor_on_model.
 
-(* non-vacuity: a concrete workflow (two critical tasks, one non-critical) in CONFIGURED meets the
-   hypotheses of the partial theorems; it starts when the non-critical task fails and goes to
-   ERROR when a critical one does; creation of it succeeds and fails accordingly *)
+(* non-vacuity: a concrete workflow (two critical tasks, one non-critical) in CONFIGURED: it starts
+   when the non-critical task fails and goes to ERROR, with an error, when a critical one does;
+   creation of it succeeds and fails accordingly; the repaired corner cases: one non-critical
+   task that fails START, no ACTIVE task at all, a workflow with a call role only *)
 Example C02_nonvacuous :
   let ds := [mkT true Direct 1; mkT false Fairmq 2; mkT true Basic 3] in
   let s := mkSys E_CONFIGURED (map (fun d => mkR d ACTIVE CONFIGURED) ds) 1 in
+  let one := mkSys E_CONFIGURED [mkR (mkT false Direct 1) ACTIVE CONFIGURED] 0 in
+  let none := mkSys E_CONFIGURED [mkR (mkT false Direct 1) INACTIVE ERROR] 0 in
   s_env s = ev_src START /\
-  (has_crit_target (s_ts s) = true /\ (2 <= length (targets (s_ts s)))%nat) /\
   o_state (snd (api_control START [Ack; ErrErr; Ack] s)) = 4 /\
   o_state (snd (api_control START [Ack; Ack; SendFail] s)) = 5 /\
+  o_err (snd (api_control START [Ack; Ack; SendFail] s)) = true /\
+  o_state (snd (api_control START [ErrSrc] one)) = 4 /\
+  o_state (snd (api_control START [ErrSrc] none)) = 4 /\
+  o_cmded (snd (api_control START [ErrSrc] none)) = [] /\
   created ds 1 [LRun; LRun; LRun] [Ack; Dies; Ack] = true /\
   created ds 1 [LRun; LRun; LFail] [Ack; Ack; Ack] = false /\
   noncrit_launch_ok ds [LRun; LRun; LFail] = true /\
+  created [] 1 [] [] = true /\
   map o_state (run_model (mkIn ds 1 [LRun; LRun; LRun] [Ack; Ack; Ack]
         [OCmd START [Ack; Ack; Ack]; OKill 1; OCmd STOP [Ack; Silent; Ack]; OCmd RESET [ErrSrc; Ack; Ack];
          OCmd CONFIGURE []])) = [3; 4; 4; 3; 5].
-Proof. vm_compute. repeat split; try reflexivity; lia. Qed.
+Proof. vm_compute. repeat split; reflexivity. Qed.
